@@ -30,6 +30,7 @@ func main() {
 		jobs     = flag.Int("j", 8, "parallel child processes for self-tests")
 		variant  = flag.String("variant", "", "internal: run one self-test variant (prop/index or prop/base)")
 		warm     = flag.Bool("warm", false, "load /repo once to warm the go build cache (used by setup_cmd)")
+		manifest = flag.Bool("manifest", false, "regenerate MANIFEST.json from the rule registry")
 	)
 	flag.Parse()
 	if *tier == "" {
@@ -63,6 +64,14 @@ func main() {
 		} else {
 			fmt.Printf("warm-up: %d packages, %d files, %d functions, %s\n", len(p.Pkgs), p.NFiles, p.NFuncs, p.Toolchain)
 		}
+		return
+	}
+	if *manifest {
+		if err := writeManifest(*verif); err != nil {
+			fmt.Println("manifest:", err)
+			os.Exit(2)
+		}
+		fmt.Println("wrote", filepath.Join(*verif, "MANIFEST.json"))
 		return
 	}
 	if *dump != "" {
